@@ -613,8 +613,8 @@ def _c19_floors(m, tier):
     out = []
     if len(m.cov.get("constructor", {})) < 11:
         out.append("not all 11 sequence constructors exercised")
-    if len(m.cov.get("object_constructor", {})) < 17:
-        out.append("only %d of 17 Result-returning object constructors exercised" % len(m.cov.get("object_constructor", {})))
+    if len(m.cov.get("object_constructor", {})) < 22:
+        out.append("only %d of 22 Result-returning object constructors (incl. 5 deserialisations into locked containers) exercised" % len(m.cov.get("object_constructor", {})))
     out += need(m, "fail_from_k", ["0", "1", "2"], "fault positions k")
     if not m.cov.get("constructor_err_on_refusal") or not m.cov.get("transition_err_on_refusal"):
         out.append("no Err result observed for a refused lock request (fault injection not effective?)")
@@ -626,7 +626,7 @@ def _c19_floors(m, tier):
 PROPS["C19"] = dict(
     level="fault_enumeration",
     technique="runtime fault enumeration: an in-binary interposer on mlock() refuses the k-th and all later lock requests; each operation sequence is measured fault-free (n lock requests) and re-run for every k < n; oracle = no panic inside Result-returning constructors/transitions, survivors still agree with the C14 model (page rights, VM_LOCKED, VmLck, contents), nothing unwiped or locked remains after drop",
-    level_text="For every operation sequence up to depth 2 (quick) / 3 (thorough) from 11 constructors over all region lengths, for seeded random sequences with several regions alive, and for 17 Result-returning object "
+    level_text="For every operation sequence up to depth 2 (quick) / 3 (thorough) from 11 constructors over all region lengths, for seeded random sequences with several regions alive, and for 22 Result-returning object "
                "constructors (locked key pairs, precomputed keys, read-only variants), every fault position k is enumerated. A panic in clone/resize/Default, whose signatures cannot report an error, is an allowed outcome; "
                "the cleanliness checks still run while unwinding.",
     level_note="The fault is injected by defining `mlock` in the monitor executable (it forwards to the real system call when not failing), which is equivalent to an LD_PRELOAD interposer but also works under valgrind; "
